@@ -49,7 +49,9 @@ impl<'a> SpannedText<'a> {
 
     /// Calculate the line and column position, in characters.
     fn linecol(&self, pos: usize) -> (usize, usize) {
-        assert!(pos < self.text.len());
+        // `pos == len` is a valid position: a span may start (and end) at the very end of
+        // the text, e.g. the empty span of an empty source.
+        assert!(pos <= self.text.len());
         let mut line: usize = 1;
         let mut col: usize = 1;
         for c in self.text[0..pos].chars() {
